@@ -19,6 +19,8 @@ ENGINES = {
     "C18": ("eng_pratt", "proof"),
     "C15": ("eng_world", "other"),
     "C12": ("eng_charset", "proof"),
+    "C10": ("eng_front", "other"),
+    "C11": ("eng_front", "proof"),
     "C01": ("eng_core", "proof"),
     "C02": ("eng_core", "other"),
     "C03": ("eng_core", "proof"),
